@@ -21,6 +21,10 @@ pub assume_specification<T: Ord> [core::cmp::min] (a: T, b: T) -> (r: T)
     ensures (key_le(a, b) ==> r == a) && (!key_le(a, b) ==> r == b),
 ;
 
+pub assume_specification<T, const N: usize, F: FnMut(usize) -> T> [core::array::from_fn] (f: F) -> (r: [T; N])
+    requires forall|i: usize| i < N ==> call_requires(f, (i,)),
+    ensures forall|i: usize| i < N ==> call_ensures(f, (i,), #[trigger] r@[i as int]),
+;
 pub type OrderId = usize;
 pub type Nanos = u64;
 pub type Price = u32;
@@ -309,6 +313,11 @@ impl BidSide {
     }
 }
 impl AskSide {
+    fn vol_and_orders_at_price(&self, price: Price) -> (r: (Vol, OrderCount))
+        ensures r == (if self.0.lv().contains_key(price) { self.0.lv()[price] } else { (0u32, 0u32) })
+    {
+        self.0.vol_and_orders_at_price(price)
+    }
     fn best_vol_and_orders(&self) -> (r: (Vol, OrderCount))
         ensures r == (if self.0.lv().dom() =~= Set::empty() { (0u32, 0u32) } else { self.0.lv()[min_p(self.0.lv())] }),
     {
@@ -1642,6 +1651,40 @@ impl Book {
             orders: state.orders,
             trades: state.trades,
             trading: state.trading,
+        })
+    }
+}
+
+pub struct BookL<const LEVELS: usize> { b: Book }
+impl<const LEVELS: usize> BookL<LEVELS> {
+    // volume and count resting at ask price p, from the order list
+    spec fn ask_level(os: Seq<OrderEntry>, p: Price) -> (Vol, OrderCount) {
+        (lvl_vol(os, os.len() as int, Side::Ask, -1, p) as u32, lvl_cnt(os, os.len() as int, Side::Ask, -1, p) as u32)
+    }
+    fn bid_ask(&self) -> (r: (Price, Price)) requires self.b.wfx(-1) ensures r == (Book::touch_bid(self.b.orders@), Book::touch_ask(self.b.orders@)) { self.b.bid_ask() }
+
+    fn ask_levels(&self) -> (r: [(Vol, OrderCount); LEVELS])
+        requires self.b.wfx(-1), LEVELS * self.b.tick_size <= u32::MAX, self.b.tick_size >= 1,
+        ensures forall|i: int| 0 <= i < LEVELS ==> #[trigger] r@[i]                                   // [C02.levels]
+            == Self::ask_level(self.b.orders@, ((Book::touch_ask(self.b.orders@) + i * self.b.tick_size) % 0x1_0000_0000) as u32),
+    {
+        let start = self.bid_ask().1;
+        core::array::from_fn(|i: usize| -> (res: (Vol, OrderCount))
+            requires i < LEVELS
+            ensures res == Self::ask_level(self.b.orders@, ((start + i * self.b.tick_size) % 0x1_0000_0000) as u32)
+        {
+            proof {
+                assert(i * self.b.tick_size <= LEVELS * self.b.tick_size) by (nonlinear_arith) requires i < LEVELS, self.b.tick_size >= 1;
+                assert(i <= LEVELS * self.b.tick_size) by (nonlinear_arith) requires i < LEVELS, self.b.tick_size >= 1;
+                let p = ((start + i * self.b.tick_size) % 0x1_0000_0000) as u32;
+                let os = self.b.orders@; let n = os.len() as int; let sd = self.b.ask_side.0;
+                lemma_nonneg(os, n, Side::Ask, -1, p);
+                lemma_cnt_le_vol(os, n, Side::Ask, -1, p);
+                if !sd.lv().contains_key(p) { lemma_cnt0_vol0(os, n, Side::Ask, -1, p); }
+            }
+            self.b.ask_side.vol_and_orders_at_price(
+                start.wrapping_add(Price::try_from(i).unwrap() * self.b.tick_size),
+            )
         })
     }
 }
